@@ -363,6 +363,44 @@ def check_bystander(w, target):
     return bad
 
 
+def check_shared_exception(acc):
+    """One HTTP error *instance* (a module-level `BUSY = ServiceUnavailable()`) raised or returned by routes of
+    different applications: each application renders it with its own error handler, in whatever order they are asked."""
+    import itertools
+    from clastic import Application
+    from clastic.errors import ErrorHandler, ServiceUnavailable, NotFound
+
+    def handler(tag):
+        class H(ErrorHandler):
+            def render_error(self, request, _error):
+                r = ErrorHandler.render_error(self, request=request, _error=_error)
+                r.headers['X-Rendered-By'] = tag
+                return r
+        return H()
+    for how in ('raise', 'return'):
+        for breaking in (True, False):
+            busy = ServiceUnavailable('busy', is_breaking=breaking)
+
+            def ep():
+                if how == 'raise':
+                    raise busy
+                return busy
+            for order in itertools.permutations(['A', 'B', 'C']):
+                apps = dict((t, Application([('/x', ep)], error_handler=handler(t))) for t in 'AB')
+                apps['C'] = Application([('/sub', apps['A'])], error_handler=handler('C'))
+                for tag in order * 2:
+                    res = wsgi.call(apps[tag], '/sub/x' if tag == 'C' else '/x', 'GET')
+                    acc.transitions += 1
+                    acc.validated += 1
+                    if res.raised is not None or res.code != 503 or res.header('X-Rendered-By') != tag:
+                        acc.violation('C11:shared-exception-instance', 'application %s answered %s rendered by %r (raised %r) for an error '
+                                      'instance also used by other applications; order %r, %s, breaking=%r'
+                                      % (tag, res.status, res.header('X-Rendered-By') if res.headers else None, res.raised, order, how, breaking),
+                                      {'part': 'shared-exception'})
+                        return
+    acc.outcome('shared-exception')
+
+
 def check_render_factories(acc):
     """Applications with render factories of their own: whatever one application's factory has built, loaded or
     remembered never shows in another application - in every order of construction and of first requests, also when
@@ -532,6 +570,8 @@ def shard(tier, i, n, seed):
     acc.extra['model_states'] = [len(states)]
     if i == 3 % n:
         check_render_factories(acc)
+    if i == 4 % n:
+        check_shared_exception(acc)
     for k, hist in enumerate(states):
         if k % n != i:
             continue
@@ -572,6 +612,9 @@ def finish(tier, merged, results):
 def replay(case):
     common.setup_repo()
     acc = common.Acc()
+    if case.get('part') == 'shared-exception':
+        check_shared_exception(acc)
+        return (False, acc.violations[0]['desc'][:3000]) if acc.violations else (True, 'ok')
     if case.get('part') == 'render-factories':
         check_render_factories(acc)
         return (False, acc.violations[0]['desc'][:3000]) if acc.violations else (True, 'ok')
